@@ -187,46 +187,72 @@ main(int argc, char** argv)
 
   // ---- balanced flag through the real objective function (non-TOF; uses the projector's symmetries)
   {
-    const int nb = thorough ? 40 : 10;
-    for (int k = 0; k < nb; ++k)
-      {
-        const int V = 4 * rng.range(1, 8) + (rng.range(0, 3) == 0 ? 2 : 0);
-        const int R = 3;
-        shared_ptr<Scanner> scanner = vh::make_scanner(2 * V, R);
-        shared_ptr<ProjDataInfo> pdi = vh::make_pdi(scanner, 1, R - 1, V, std::min(5, V - 1), false, 0);
-        shared_ptr<ExamInfo> exam(new ExamInfo);
-        exam->imaging_modality = ImagingModality::PT;
-        shared_ptr<ProjData> data(new ProjDataInMemory(exam, pdi));
-        shared_ptr<DiscretisedDensity<3, float>> image = vh::make_image(*pdi, 1.F, 5, 2 * R - 1);
-        const int flags = rng.range(0, 7);
-        shared_ptr<ProjMatrixByBinUsingRayTracing> pm(new ProjMatrixByBinUsingRayTracing);
-        pm->set_do_symmetry_90degrees_min_phi(flags & 1);
-        pm->set_do_symmetry_180degrees_min_phi(flags & 2);
-        pm->set_do_symmetry_swap_segment(flags & 4);
-        shared_ptr<ProjectorByBinPair> pair(new ProjectorByBinPairUsingProjMatrixByBin(pm));
-        pair->set_up(pdi, image);
-        for (int n = 1; n <= V; ++n)
-          {
-            if (!thorough && n > 8 && V % n != 0)
-              continue;
-            PoissonLogLikelihoodWithLinearModelForMeanAndProjData<TargetT> obj;
-            obj.set_proj_data_sptr(data);
-            obj.set_projector_pair_sptr(pair);
-            const int maxseg = rng.range(0, R - 1);
-            obj.set_max_segment_num_to_process(maxseg);
-            obj.set_num_subsets(n);
-            const bool b = obj.subsets_are_approximately_balanced();
-            std::fprintf(ops, "cfg %d %d %d %d 1 0\n", V, flags & 1 ? 1 : 0, flags & 2 ? 1 : 0, flags & 4 ? 1 : 0);
+    std::vector<int> bviews = { 2, 3, 4, 5, 7, 8, 10, 12, 13, 16 };
+    if (thorough)
+      for (int V = 17; V <= 40; ++V)
+        bviews.push_back(V);
+    else
+      bviews.push_back(4 * rng.range(5, 12) + rng.range(0, 3));
+    const int flag_sets[] = { 0, 2, 3, 4, 7 };
+    for (int V : bviews)
+      for (int flags : flag_sets)
+        {
+          const int R = 3;
+          shared_ptr<Scanner> scanner = vh::make_scanner(2 * V, R);
+          shared_ptr<ProjDataInfo> pdi = vh::make_pdi(scanner, 1, R - 1, V, std::max(1, std::min(5, V - 1)), false, 0);
+          shared_ptr<ExamInfo> exam(new ExamInfo);
+          exam->imaging_modality = ImagingModality::PT;
+          shared_ptr<ProjData> data(new ProjDataInMemory(exam, pdi));
+          shared_ptr<DiscretisedDensity<3, float>> image = vh::make_image(*pdi, 1.F, 5, 2 * R - 1);
+          shared_ptr<ProjMatrixByBinUsingRayTracing> pm(new ProjMatrixByBinUsingRayTracing);
+          pm->set_do_symmetry_90degrees_min_phi(flags & 1);
+          pm->set_do_symmetry_180degrees_min_phi(flags & 2);
+          pm->set_do_symmetry_swap_segment(flags & 4);
+          shared_ptr<ProjectorByBinPair> pair(new ProjectorByBinPairUsingProjMatrixByBin(pm));
+          pair->set_up(pdi, image);
+          const DataSymmetriesForBins_PET_CartesianGrid* ps
+              = dynamic_cast<const DataSymmetriesForBins_PET_CartesianGrid*>(pm->get_symmetries_ptr());
+          std::fprintf(ops, "cfg %d %d %d %d 1 0\n", V, flags & 1 ? 1 : 0, flags & 2 ? 1 : 0, flags & 4 ? 1 : 0);
+          std::fprintf(out, "eff %d %d %d\n", ps->using_symmetry_90degrees_min_phi() ? 1 : 0,
+                       ps->using_symmetry_180degrees_min_phi() ? 1 : 0, ps->using_symmetry_swap_segment() ? 1 : 0);
+          for (int n = 1; n <= V; ++n)
             {
-              const DataSymmetriesForBins_PET_CartesianGrid* ps
-                  = dynamic_cast<const DataSymmetriesForBins_PET_CartesianGrid*>(pm->get_symmetries_ptr());
-              std::fprintf(out, "eff %d %d %d\n", ps->using_symmetry_90degrees_min_phi() ? 1 : 0,
-                           ps->using_symmetry_180degrees_min_phi() ? 1 : 0, ps->using_symmetry_swap_segment() ? 1 : 0);
+              if (!thorough && V > 16 && n > 8 && V % n > 1)
+                continue;
+              for (int maxseg = 0; maxseg <= R - 1; maxseg += R - 1)
+                {
+                  PoissonLogLikelihoodWithLinearModelForMeanAndProjData<TargetT> obj;
+                  obj.set_proj_data_sptr(data);
+                  obj.set_projector_pair_sptr(pair);
+                  obj.set_max_segment_num_to_process(maxseg);
+                  obj.set_num_subsets(n);
+                  const bool b = obj.subsets_are_approximately_balanced();
+                  std::fprintf(ops, "balanced %d %d\n", n, maxseg);
+                  std::fprintf(out, "%d\n", b ? 1 : 0);
+                  // ORACLE (property statement on the implementation): balanced iff all subsets process the same number of viewgrams
+                  ++oracle_checks;
+                  std::vector<std::size_t> counts;
+                  for (int i = 0; i < n; ++i)
+                    {
+                      std::size_t c = 0;
+                      for (auto& bvs : detail::find_basic_vs_nums_in_subset(*pdi, *ps, -maxseg, maxseg, i, n))
+                        {
+                          std::vector<ViewSegmentNumbers> rel;
+                          ps->get_related_view_segment_numbers(rel, bvs);
+                          c += rel.size();
+                        }
+                      counts.push_back(c);
+                    }
+                  const bool equal = std::all_of(counts.begin(), counts.end(), [&](std::size_t c) { return c == counts[0]; });
+                  if (equal != b)
+                    {
+                      ++oracle_fails;
+                      std::fprintf(orc, "ORACLE-FAIL balanced flag %d but per-subset viewgram counts are %s: V=%d flags=%d n=%d maxseg=%d\n", b ? 1 : 0,
+                                   equal ? "equal" : "unequal", V, flags, n, maxseg);
+                    }
+                }
             }
-            std::fprintf(ops, "balanced %d %d\n", n, maxseg);
-            std::fprintf(out, "%d\n", b ? 1 : 0);
-          }
-      }
+        }
   }
 
   // ---- schedules
